@@ -95,6 +95,68 @@ class StepShape:
         return e
 
 
+def benign_batch_guard(atom, T, for_shuffle=False):
+    """a condition on the taken batch `T` under which skipping the guarded code changes nothing:
+    `!T.is_empty()` / `T.len() > 0` / `T.len() != 0` (an empty batch has nothing to process and nothing to shuffle), and for
+    the shuffle alone also `T.len() > 1` / `T.len() >= 2` (rand 0.8.5 draws nothing for fewer than two elements)."""
+    tl = ("local", T)
+
+    def is_len(e):
+        return e[0] == "call" and e[4] == "len" and e[2] and e[2][0] == tl
+    if atom[0] == "bool" and atom[2] is False and atom[1][0] == "call" and atom[1][4] == "is_empty" and atom[1][2] and atom[1][2][0] == tl:
+        return True
+    if atom[0] == "cmp" and is_len(atom[2]) and atom[3][0] == "const":
+        k = atom[3][3]
+        if (atom[1], k) in (("gt", 0), ("ne", 0), ("ge", 1)):
+            return True
+        if for_shuffle and (atom[1], k) in (("gt", 1), ("ge", 2)):
+            return True
+    return False
+
+
+def loop_counter(q, head, e):
+    """is expression e the value of an explicit position counter of the loop `head`: a local that is 0 before the loop and
+    incremented by exactly 1 once on every iteration, read BEFORE this iteration's increment (so it equals the number of
+    completed iterations = the 0-based position of the current item)?  Returns the local or None."""
+    while e[0] in ("conv", "cast"):
+        e = e[1] if e[0] == "conv" else e[2]
+    if e[0] != "phi" or len(e[1]) != 2:
+        return None
+    zero = [a for a in e[1] if a[0] == "const" and a[3] == 0]
+    inc = [a for a in e[1] if a[0] != "const"]
+    if len(zero) != 1 or len(inc) != 1:
+        return None
+    a = inc[0]
+    if a[0] == "field" and a[2] == "0" and a[1][0] == "bin" and a[1][1] == "AddWithOverflow":
+        a = a[1]
+    if not (a[0] == "bin" and a[1] in ("Add", "AddWithOverflow")):
+        return None
+    x, y = a[2], a[3]
+    if not (y[0] == "const" and y[3] == 1 and x[0] == "cycle"):
+        if not (x[0] == "const" and x[3] == 1 and y[0] == "cycle"):
+            return None
+        x = y
+    l = x[1]
+    body = q.body.loop_body(head)
+    defs = q.ev.def_sites().get(l, [])
+    inside = [d for d in defs if d[1] in body]
+    outside = [d for d in defs if d[1] not in body]
+    if len(inside) != 1 or len(outside) != 1 or inside[0][0] != "s" or outside[0][0] != "s":
+        return None
+    if not q.body.dominates(outside[0][1], head):
+        return None
+    ib = inside[0][1]
+    # once per iteration: not inside a nested loop, and every path from the head back to the head passes the increment
+    inner = [h for h in q.body.loop_heads() if h != head and h in body and ib in q.body.loop_body(h)]
+    if inner:
+        return None
+    outside_blocks = [b for b in range(len(q.body.blocks)) if b not in body]
+    for s0 in q.body.succs(head):
+        if s0 in body and head in q.cfg.reach_from(s0, cut_blocks=set(outside_blocks) | {ib}) and s0 != ib:
+            return None
+    return l
+
+
 def fanout_ok(m, q, books_field, target):
     """does q call OrderBook::<target> on EVERY element of self.<books_field>?  Accepted idioms:
     `for b in self.books.iter_mut() { b.target(..) }` (no adapter) and
